@@ -118,6 +118,53 @@ CLAIMED = {
         note="TLS forwarding (process_urh/GnuTLS) and thread-per-connection outside the model; parser and ordinary reply bytes are "
              "parameters (C02/C04).",
         design="DESIGN.md §3 C20", technique="Lean 4 proof + model/code correspondence (per-fd I/O interposition) + log oracle"),
+    "C04": dict(
+        engine="reply",
+        text="Lean 4 proof over a model of response.c / connection.c reply building: every finite sequence of response-API calls "
+             "(add/del header, footer, options) preserves the 'flags_auto <=> header list' invariant; every completely sent reply - all "
+             "statuses accepted by MHD_queue_response, methods, versions, connection states, buffer and callback bodies - parses under "
+             "a strict HTTP/1.x grammar (independent of the model) with exactly one body delimitation (none for HEAD/1xx/204/304; "
+             "chunked only to 1.1 clients; Content-Length = body; close-delimited), body = the application's bytes, user headers "
+             "verbatim/once/in order, closesAfter => announced Connection: close, 100-continue only when asked. The converse 'announced "
+             "close => daemon closes' is carried by correspondence only (partial). Tie: exhaustive differential of the decision "
+             "functions (33M points), bounded-exhaustive API call sequences, random full exchanges, strict-parser oracle.",
+        note="Hypotheses: no insanity flag; header names without ':'; numeric application Content-Length; callback contract; reply sent "
+             "completely; no allocation failure. TLS, iovec/fd/pipe senders and socket faults outside the model (C07).",
+        design="DESIGN.md §3 C04", technique="Lean 4 proof + regenerated constants + exhaustive/bounded/random differential + strict-parser oracle"),
+    "C06": dict(
+        engine="loop",
+        text="Lean 4 theorems over a model of the three event loops (connection lists in pointer order with prev resolved in the list that "
+             "holds the node, call_handlers, get_fdset, get_timeout class): round post-condition for select/poll/epoll, invariant over "
+             "all histories, no lost wake-up (timeout none and no watched fd ready => no connection can proceed), progress of an awaiting "
+             "connection within rank+1 fair rounds whatever other connections do; kernel-checked witness that the unsaved-prev select "
+             "loop (F10) violates it; for every lawful per-connection step. Tie: saves-prev flags regenerated from daemon.c (a regression "
+             "breaks the build), per-round predictive correspondence for select and epoll (bounded-exhaustive <= 4/5 events x 2 "
+             "connections + random), law monitoring on every logged handler call, independent quiescence oracle.",
+        note="Per-connection step is a parameter under explicit law records; the poll loop has model, proof and regenerated flag only (no "
+             "external poll mode exists); timeout values are C10; accept, TLS, upgrade, thread-per-connection not modelled; kernel epoll "
+             "events are an input.",
+        design="DESIGN.md §3 C06", technique="Lean 4 proof + regenerated flags + trace-driven model correspondence + log oracle"),
+    "C07": dict(
+        engine="send",
+        text="Lean 4 proof, for every fault script of any length: bytes delivered to the client are a prefix of the reply stream and the "
+             "offsets account for exactly the rest (header+body coalescing, iovec tracker, sendfile with fallback, chunk framing); a hard "
+             "socket error closes without sending; transient-only scripts never close and complete within 8*|R| productive rounds; every "
+             "modelled allocation failure closes or is a no-op; upload bytes handed to the application are a prefix of the body. Tie: "
+             "call-by-call replay of real fault-injected exchanges (libc interposition, --wrap malloc), complete single-fault "
+             "enumeration per scenario (thorough), random multi-fault plans, independent log oracle, LeakSanitizer.",
+        note="Completion-notification and resource-release clauses are carried by the implementation-side oracle on every enumerated run "
+             "(and by C05/C09's theorems). TLS and threaded modes not covered.",
+        design="DESIGN.md §3 C07", technique="Lean 4 proof (invariant over fault scripts + progress measure) + fault enumeration as validation"),
+    "C15": dict(
+        engine="pp",
+        text="Lean 4 theorems over a model of postprocessor.c. urlencoded: full round trip for every conforming rendering, every split incl. "
+             "empty chunks and every buffer size (contiguous offsets, order, every call MHD_YES); split independence; no fault incl. loop "
+             "termination for all inputs. multipart: for all inputs and splits no out-of-object access and no fabricated value byte "
+             "(modulo an unproved loop-termination bound - partial). The multipart round trip (single-level and nested) is carried by "
+             "the correspondence run only. Tie: regenerated constants; model-vs-code diff over bounded-exhaustive 2/3-way splits, "
+             "byte-by-byte, random and malformed bodies x buffer sizes; independent oracle.",
+        note="Multipart round trip and multipart loop termination not proved (stated in Props/C15.lean).",
+        design="DESIGN.md §3 C15", technique="Lean 4 proof + translator for constants + bounded-exhaustive/random correspondence"),
     "C08": dict(
         engine="pool",
         text="Lean 4 theorems over an executable model of memorypool.c (every op, every size_t argument, every op "
